@@ -186,6 +186,14 @@ def check(ctx, rep):
             sets = [e for e in p.calls() if q.call_name(e) == "set" and it.type_of(q.recv(e), p) == "E:Event"]
             decs = [e for e in p.calls() if (q.metric_of(e) or (None, None))[1] == "dec"]
             sig = q.path_sig(p)
+            # the decision "this call is the one that shuts down" must come from the helper's
+            # test-and-set: reading the flag outside the helper's lock is check-then-act
+            for b in p.evs("branch"):
+                t = b.d[0]
+                if isinstance(t, tuple) and t[0] == "attr" and t[2] == flag and it.type_of(t[1], p) == "C:" + helper.key:
+                    locked = any(l[1] == ("attr", t[1], lockfield) for l in b.locks)
+                    rep.ob("R-SHUT", "%s.shutdown: first-call decision taken under the helper's lock" % ci.name, locked,
+                           "shutdown() reads the shutdown flag outside the helper's lock: two concurrent shutdown() calls can both pass the test (check-then-act)", where_of(b.fn, b.node), trace_of(p, b.seq))
             if not flips:
                 ok = not dsh and not joins and not decs
                 rep.ob("R-SHUT", "%s.shutdown: repeated call is a no-op [%s]" % (ci.name, sig), ok, "a shutdown() that did not flip the flag still performs %s" % ", ".join(fmt(e.d["func"]) for e in dsh + joins + decs), where_of(m), trace_of(p))
@@ -277,6 +285,13 @@ def check(ctx, rep):
             missing = [n for n, e in (("executor collected", deref), ("executor shut down", shut), ("interpreter exiting", glob)) if e is None or (work is not None and e.seq > work.seq)]
             rep.ob("R-LOOPTOP", key + " tests before work", not missing, "iteration reaches %s without deciding: %s" % (fmt(work.d["func"]) if work is not None and work.kind == "call" else "its work", ", ".join(missing)), where_of(work.fn, work.node) if work is not None else where_of(target), trace_of(p, work.seq if work is not None else None))
         rep.ob("R-LOOPTOP", "%s: has working iterations" % target.qualname, n_iter > 0, "no iteration path with work found (analysis anchor)", where_of(target))
+
+    # ------------------------------------------------ stop flags and the wake-up protocol
+    # shutdown() sets the flag and then the event; the loop must re-read the flag between its clear() and
+    # its next wait(), or the wake-up of a shutdown is lost and join() never returns
+    rep.rule("R-WAKE-L", "per worker-loop iteration (cyclically): everything the iteration reads -- including the shutdown flags -- is read again between clear() of the loop's event and the next wait()")
+    from .. import wake
+    wake.check_loops(ctx, rep, wake.discover(ctx))
 
     # ----------------------------------------------------------- R-LOOPWRAP
     inner = [f for f in loopwrap.nested.values()]
